@@ -447,6 +447,36 @@ func CorpusHistories(scratch string, names map[string]bool) ([]*History, []strin
 			g.Params.LazyRewardBlocks = 2
 			g.Params.MinVotingPeriodBlocks, g.Params.MaxVotingPeriodBlocks, g.Params.LazyApplyingBlocks = 1, 3, 1
 		}},
+		// a parameter document that names only a few parameters wins: the others keep their values — in the
+		// running node AND in what is stored (a node restarted afterwards reads the stored set); transactions
+		// that depend on parameters the document left out follow
+		{"partial-parameter-document-applied", 1, 2, 13, func(s *Sim, h int64) []*TxSpec {
+			u := s.User(0)
+			switch h {
+			case 3:
+				np := Params{LazyRewardBlocks: 9, MinValidatorStake: s.params.MinValidatorStake, RewardPerPower: s.params.RewardPerPower, GasPrice: s.params.GasPrice}
+				t := s.TxProposal(s.Val(0), 4, 1, 6)
+				t.Prop.Options = []OptSpec{{Raw: np.JSON(true), Params: &np}}
+				return []*TxSpec{t}
+			case 4:
+				if len(s.H.WatchH) > 0 {
+					return []*TxSpec{s.TxVote(s.Val(0), s.H.WatchH[len(s.H.WatchH)-1], 0)}
+				}
+			case 8, 9, 10, 11:
+				low := s.TxTransfer(u, s.User(1).Addr, "5")
+				low.Gas, low.Note = s.params.MinTrxGas-1, "low-gas-after-partial-document"
+				ok := s.TxTransfer(u, s.User(1).Addr, "6")
+				ok.Note = "transfer-after-partial-document"
+				st := s.TxStake(s.User(1), s.Val(0).Addr, 1)
+				st.Note = "delegate-after-partial-document"
+				return []*TxSpec{low, ok, st}
+			}
+			return nil
+		}, func(g *Genesis) {
+			easyParams(g)
+			g.Params.LazyRewardBlocks = 2
+			g.Params.MinVotingPeriodBlocks, g.Params.MaxVotingPeriodBlocks, g.Params.LazyApplyingBlocks = 1, 3, 1
+		}},
 		// a successful contract call whose INNER frame is the first to look at account X and then reverts:
 		// X (whose native nonce is ahead of what the EVM trie last stored) must come out untouched
 		{"inner-frame-reverts-after-first-touch", 1, 3, 8, func(s *Sim, h int64) []*TxSpec {
